@@ -29,14 +29,15 @@ TEXT = {
     "C12": "W3C.tla is an executable specification of the traceparent decoder over sequences of characters; TLC enumerates the product of field classes (13 119 decode classes, 72 id classes), the harness concretises each with seeded random digits and adds free-form text; the real functions run under catch_unwind and every result is validated by TLC against the module (panic, accepted-malformed, rejected-valid, wrong value; 55-character form, round trip, Display/FromStr/serde). Level exploration: the input space is sampled per class, not decided.",
     "C19": "Reporters.tla states the three mappings structurally (ids as hex strings, numbers as digit sequences); TLC enumerates record classes (id byte patterns incl. top bit set, string classes, duration classes, property / event counts, duplicate keys) and batch sizes 0..200; the real reporters run against a loopback UDP socket, a loopback HTTP listener and a capturing SpanExporter; the bytes are decoded by independent Thrift-compact and MessagePack decoders (a decoding error is the well-formedness verdict) and validated by TLC. Level exploration.",
     "C20": "Jaeger.tla is a PlusCal transcription of try_report over an abstract size function; TLC checks termination (and a decreasing variant), datagram size and exactly-once-in-order for every size vector up to the bound over {tiny, third, half, just below, just at, oversize}; every vector (and random batches of up to 2000 spans) is then run through the real reporter with records padded to the exact singleton sizes 7999 / 8000, and the received datagrams are validated by TLC against the property's conjuncts.",
+    "C15": "Macro.tla gives a small statement language for bodies (effect, by-ref use, by-value move, ok?, err?, early return, panic, await, nested annotated call) its meaning, and says which spans an annotated call records; TLC enumerates function kind (sync, async, enter_on_poll, generic, lifetimes, method, async method, async-trait) x naming x properties x bodies; every case is generated as a plain and an annotated Rust function, compiled against /repo's macro crate and run with and without a local parent; effects, outcome (value / error / panic payload) and records are validated by TLC against the module. Level exploration: a bounded grammar, not Rust's type system.",
     "C13": "in_span(span): the span is the local parent during every poll and the previous context is back afterwards (context queries inside and after polls); the span finishes exactly at completion or drop; what the final poll recorded is part of the trace (cancelable mode: same batch). enter_on_poll: one local span per poll. All poll sequences up to the bound, with migration between two threads, cycles at every push incl. those inside the final poll.",
     "C14": "The same for fastrace-futures' Stream and Sink adapters (poll_next / poll_ready / start_send / poll_flush / poll_close), driven through the real adapters around a scripted inner stream / sink.",
     "C16": "Built without the `enable` feature (second harness build) every call is inert: no reporter call, no thread from set_reporter, no context, no closure invoked; with the feature on the same for spans that are not recording (no reporter installed, no-op parents, no local parent).",
     "C17": "A collected local-span set pushed to several parents yields identical subtrees under each parent.",
 }
 
-EXPLORATION = {"C18", "C12", "C19"}
-SIDE_SPEC = {"C12": "W3C.tla", "C19": "Reporters.tla", "C20": "Jaeger.tla (PlusCal, model checked)"}
+EXPLORATION = {"C18", "C12", "C19", "C15"}
+SIDE_SPEC = {"C15": "Macro.tla", "C12": "W3C.tla", "C19": "Reporters.tla", "C20": "Jaeger.tla (PlusCal, model checked)"}
 REF = {p: "DESIGN.md section 5, " + p for p in TEXT}
 
 
